@@ -343,6 +343,29 @@ func (s *Server) BuildAnswer(z *Zone, id uint16, qu Question) *Msg {
 			m.Answer = append(m.Answer, z.Poison[i])
 		}
 	}
+	if z.Glue > 0 && qu.Type == TypeHTTPS {
+		seen := map[string]bool{}
+		for _, a := range ans {
+			if a.Type != TypeHTTPS || a.Svc == nil || a.Svc.Priority == 0 {
+				continue
+			}
+			tgt := a.Target
+			if tgt == "" || tgt == "." {
+				tgt = a.Name
+			}
+			if seen[tgt] {
+				continue
+			}
+			seen[tgt] = true
+			for _, t := range []uint16{TypeA, TypeAAAA} {
+				recs, _ := z.Lookup(tgt, t)
+				for _, g := range Final(recs, tgt, t) {
+					g.TTL = z.Glue
+					m.Additional = append(m.Additional, g)
+				}
+			}
+		}
+	}
 	if z.NegSOA && len(ans) == 0 {
 		labels := strings.Split(strings.TrimSuffix(qu.Name, "."), ".")
 		apex := strings.Join(labels[max(0, len(labels)-1):], ".")
